@@ -280,13 +280,13 @@ def run_C04(ctx):
 def run_C05(ctx):
     quick = ctx["quick"]
     ex = props.conversion_exprs(spellings_by_kind(ctx), quick)
-    run_values(ctx, "conversions", ex, oracle=oracles.oracle_units)
+    run_values(ctx, "conversions", ex, oracle=lambda *a: (oracles.oracle_units(*a), oracles.oracle_eval(*a)))
     oracles.table_units(ctx)
 
 
 def run_C06(ctx):
     ex = props.measurement_exprs(ctx["rng"], ctx["quick"])
-    run_values(ctx, "measurements", ex, oracle=oracles.oracle_units)
+    run_values(ctx, "measurements", ex, oracle=oracles.oracle_eval)
 
 
 def run_C07(ctx):
